@@ -76,3 +76,146 @@ pub fn strain_difficulty_value(
         decay_weight,
     )
 }
+
+/// One event of the real `rosu_map` `SliderEventsIter`:
+/// `(kind, span_idx, span_start_time, time, path_progress)` with kind
+/// 0: head, 1: tick, 2: repeat, 3: last (legacy) tick, 4: tail.
+pub type RawSliderEvent = (u8, i32, f64, f64, f64);
+
+/// Runs the real `SliderEventsIter` on a raw parameter tuple; `limit` bounds
+/// the amount of events that are pulled (the iterator itself has no bound).
+pub fn slider_events_raw(
+    start_time: f64,
+    span_duration: f64,
+    velocity: f64,
+    tick_dist: f64,
+    total_dist: f64,
+    span_count: i32,
+    limit: usize,
+) -> Vec<RawSliderEvent> {
+    use rosu_map::section::hit_objects::{SliderEventType, SliderEventsIter};
+
+    let mut ticks_buf = Vec::new();
+
+    SliderEventsIter::new(
+        start_time,
+        span_duration,
+        velocity,
+        tick_dist,
+        total_dist,
+        span_count,
+        &mut ticks_buf,
+    )
+    .take(limit)
+    .map(|e| {
+        let kind = match e.kind {
+            SliderEventType::Head => 0,
+            SliderEventType::Tick => 1,
+            SliderEventType::Repeat => 2,
+            SliderEventType::LastTick => 3,
+            SliderEventType::Tail => 4,
+        };
+
+        (kind, e.span_idx, e.span_start_time, e.time, e.path_progress)
+    })
+    .collect()
+}
+
+/// What `OsuSlider::new` / `JuiceStream::new` read of the map for one slider.
+#[derive(Copy, Clone, Debug, PartialEq)]
+pub struct SliderInputs {
+    pub start_time: f64,
+    /// `timing_point_at(start_time)` or the default
+    pub beat_len: f64,
+    /// `difficulty_point_at(start_time)` or the defaults
+    pub slider_velocity: f64,
+    pub generate_ticks: bool,
+    /// `slider.curve(mode, ..).dist()`
+    pub dist: f64,
+    /// `slider.span_count()`
+    pub span_count: usize,
+}
+
+/// Per hit object: `None` for non-sliders, the inputs of the nested-object
+/// generation for sliders.
+pub fn slider_inputs(
+    map: &Beatmap,
+    mode: rosu_map::section::general::GameMode,
+) -> Vec<Option<SliderInputs>> {
+    use crate::model::{
+        control_point::{DifficultyPoint, TimingPoint},
+        hit_object::HitObjectKind,
+    };
+
+    let mut bufs = rosu_map::section::hit_objects::CurveBuffers::default();
+
+    map.hit_objects
+        .iter()
+        .map(|h| {
+            let HitObjectKind::Slider(ref slider) = h.kind else {
+                return None;
+            };
+
+            let beat_len = map
+                .timing_point_at(h.start_time)
+                .map_or(TimingPoint::DEFAULT_BEAT_LEN, |point| point.beat_len);
+
+            let (slider_velocity, generate_ticks) =
+                map.difficulty_point_at(h.start_time).map_or(
+                    (
+                        DifficultyPoint::DEFAULT_SLIDER_VELOCITY,
+                        DifficultyPoint::DEFAULT_GENERATE_TICKS,
+                    ),
+                    |point| (point.slider_velocity, point.generate_ticks),
+                );
+
+            let dist = slider.curve(mode, &mut bufs).dist();
+
+            Some(SliderInputs {
+                start_time: h.start_time,
+                beat_len,
+                slider_velocity,
+                generate_ticks,
+                dist,
+                span_count: slider.span_count(),
+            })
+        })
+        .collect()
+}
+
+/// Per hit object: `None` for non-sliders; for sliders the `end_time` and the
+/// `(kind, start_time)` of the nested objects of the real `OsuObject::new`
+/// with kind 0: repeat, 1: tail, 2: tick.
+pub fn nested_objects(map: &Beatmap) -> Vec<Option<(f64, Vec<(u8, f64)>)>> {
+    use super::object::NestedSliderObjectKind;
+
+    let mut curve_bufs = rosu_map::section::hit_objects::CurveBuffers::default();
+    let mut ticks_buf = Vec::new();
+
+    map.hit_objects
+        .iter()
+        .map(|h| {
+            let obj = OsuObject::new(h, map, &mut curve_bufs, &mut ticks_buf);
+
+            let OsuObjectKind::Slider(ref slider) = obj.kind else {
+                return None;
+            };
+
+            let nested = slider
+                .nested_objects
+                .iter()
+                .map(|n| {
+                    let kind = match n.kind {
+                        NestedSliderObjectKind::Repeat => 0,
+                        NestedSliderObjectKind::Tail => 1,
+                        NestedSliderObjectKind::Tick => 2,
+                    };
+
+                    (kind, n.start_time)
+                })
+                .collect();
+
+            Some((slider.end_time, nested))
+        })
+        .collect()
+}
